@@ -165,10 +165,18 @@ def check(run):
         desc['Nthread'] = Nthread
         run.progress(desc)
         run.ev()
-        if k % 3 == 1 and case['desc']['H']:
+        if k % 5 == 3 and case['desc']['H']:
+            # halo ids as the simulation writes them: 64-bit integers far above 2^53, not multiples of anything
+            big = (np.int64(1) << np.int64(60)) + np.int64(1)
+            case['halo']['hid'] = case['halo']['hid'] + big
+            case['part']['phid'] = case['part']['phid'] + big
+            desc['ids'] = 'above 2^60, odd'
+            run.count('cases_with_ids_above_2^53')
+        if k % 3 != 0 and case['desc']['H']:
             # an unrelated request on the very same tables just before (other thresholds, other flags, other thread count):
             # whatever it leaves behind must not reach the request that is checked
-            decoy = {t: dict(p, logM_cut=p['logM_cut'] + 0.37, logM1=p['logM1'] - 0.21, ic=1.0) for t, p in case['tracers'].items()}
+            # (the decoy switches every optional term on, whether or not the checked request mentions it)
+            decoy = {t: dict(p, logM_cut=p['logM_cut'] + 0.37, logM1=p['logM1'] - 0.21, ic=[1.0, 0.6][k % 2], Acent=0.31, Asat=-0.27, Bcent=-0.22, Bsat=0.19, **(dict(Ccent=0.17, Csat=-0.13) if t == 'ELG' else {})) for t, p in case['tracers'].items()}
             run_real(GH, case, 1 + (k % 16), tracers=decoy, rsd=not case['rsd'])
             run.count('decoy_requests_before_the_checked_one')
         core.poison_prime()
